@@ -42,6 +42,20 @@ theorem c07_gate_table_agrees :
   intro g z y
   exact h.2.2.2.2.2 g (mem_allGates g) z (mem_allCls z) y (mem_allCls y)
 
+/-- Which payloads `_apply_gate_logic` renders (`str()`, f-string) is, on every gate logic × verdict × verdict row the
+    extractor evaluates on the real code with tracer payloads, what the model's `renders` says — complete over
+    gate × class × class.  (A rendered payload whose `__str__` raises makes the gate raise: `renderFails`, `runP`.) -/
+theorem c07_renders_table_agrees :
+    (∀ r ∈ GateTable.rendered, renders r.1 (classify r.2.1) (classify r.2.2.1) = (r.2.2.2.1, r.2.2.2.2)) ∧
+    (∀ (g : Gate) (z y : Cls), ∃ r ∈ GateTable.rendered, r.1 = g ∧ classify r.2.1 = z ∧ classify r.2.2.1 = y) := by
+  have h : (∀ r ∈ GateTable.rendered, renders r.1 (classify r.2.1) (classify r.2.2.1) = (r.2.2.2.1, r.2.2.2.2)) ∧
+      (∀ g ∈ allGates, ∀ z ∈ allCls, ∀ y ∈ allCls,
+        ∃ r ∈ GateTable.rendered, r.1 = g ∧ classify r.2.1 = z ∧ classify r.2.2.1 = y) := by
+    decide +kernel
+  refine ⟨h.1, ?_⟩
+  intro g z y
+  exact h.2 g (mem_allGates g) z (mem_allCls z) y (mem_allCls y)
+
 /-- The verdict classes partition all strings: a string is in one of the four named classes exactly when it
     is that literal, and in `other` exactly when it is none of them. -/
 theorem c07_classes_partition (s : String) :
